@@ -2,12 +2,9 @@
  *   dense vector  = int[dim]            (carrier of Ring)
  *   sparse vector = long long[max]      one 64-bit cell per Nonzero<Ring> {val, idx}: low half = val, high half = idx
  * "Dense view" of a sparse vector at index g = the value of the FIRST nonzero with index g, 0 if there is none
- * (= SVectorBase::operator[]).  All expansions are over at most 8 cells (CAP <= 8); cells >= n are never read. */
+ * (= SVectorBase::operator[]).  All expansions are over CAP cells (CAP in {4, 6, 8}); cells >= n are never read. */
 #ifndef SPARSE_ALG_C_H
 #define SPARSE_ALG_C_H
-#if CAP > 8
-#error "sparse_alg_c.h: CAP <= 8"
-#endif
 int __CPROVER_uninterpreted_mul(int, int);
 int __CPROVER_uninterpreted_add(int, int);
 int __CPROVER_uninterpreted_sub(int, int);
@@ -21,20 +18,40 @@ int __CPROVER_uninterpreted_embed(double);
 #define HI32(x)  ((int)(unsigned int)((unsigned long long)(x) >> 32))
 #define VAL(e, k) LO32((e)[k])
 #define IDX(e, k) HI32((e)[k])
-#define SD1(e, n, g, k, rest) ((((k) < (n)) && IDX(e, k) == (g)) ? VAL(e, k) : (rest))
+/* IMPORTANT (performance): CBMC's symbolic execution time grows quadratically with the size of a single contract clause
+ * (every dereference inside a clause re-simplifies the whole clause).  "For all cells" facts are therefore given as ONE
+ * CLAUSE PER CELL: REQ_EACH(P) / ENS_EACH(P) expand to __CPROVER_requires(P(0)) .. __CPROVER_requires(P(CAP-1)). */
+#if CAP == 4
+#define REQ_EACH(P) __CPROVER_requires(P(0)) __CPROVER_requires(P(1)) __CPROVER_requires(P(2)) __CPROVER_requires(P(3))
+#define ENS_EACH(P) __CPROVER_ensures(P(0)) __CPROVER_ensures(P(1)) __CPROVER_ensures(P(2)) __CPROVER_ensures(P(3))
+#define CELLS(J, M, ...) (M(0, __VA_ARGS__) J M(1, __VA_ARGS__) J M(2, __VA_ARGS__) J M(3, __VA_ARGS__))
+#define SDENSE(e, n, g) SD1(e, n, g, 0, SD1(e, n, g, 1, SD1(e, n, g, 2, SD1(e, n, g, 3, 0))))
+#elif CAP == 6
+#define REQ_EACH(P) __CPROVER_requires(P(0)) __CPROVER_requires(P(1)) __CPROVER_requires(P(2)) __CPROVER_requires(P(3)) __CPROVER_requires(P(4)) __CPROVER_requires(P(5))
+#define ENS_EACH(P) __CPROVER_ensures(P(0)) __CPROVER_ensures(P(1)) __CPROVER_ensures(P(2)) __CPROVER_ensures(P(3)) __CPROVER_ensures(P(4)) __CPROVER_ensures(P(5))
+#define CELLS(J, M, ...) (M(0, __VA_ARGS__) J M(1, __VA_ARGS__) J M(2, __VA_ARGS__) J M(3, __VA_ARGS__) J M(4, __VA_ARGS__) J M(5, __VA_ARGS__))
+#define SDENSE(e, n, g) SD1(e, n, g, 0, SD1(e, n, g, 1, SD1(e, n, g, 2, SD1(e, n, g, 3, SD1(e, n, g, 4, SD1(e, n, g, 5, 0))))))
+#elif CAP == 8
+#define REQ_EACH(P) __CPROVER_requires(P(0)) __CPROVER_requires(P(1)) __CPROVER_requires(P(2)) __CPROVER_requires(P(3)) __CPROVER_requires(P(4)) __CPROVER_requires(P(5)) __CPROVER_requires(P(6)) __CPROVER_requires(P(7))
+#define ENS_EACH(P) __CPROVER_ensures(P(0)) __CPROVER_ensures(P(1)) __CPROVER_ensures(P(2)) __CPROVER_ensures(P(3)) __CPROVER_ensures(P(4)) __CPROVER_ensures(P(5)) __CPROVER_ensures(P(6)) __CPROVER_ensures(P(7))
+#define CELLS(J, M, ...) (M(0, __VA_ARGS__) J M(1, __VA_ARGS__) J M(2, __VA_ARGS__) J M(3, __VA_ARGS__) J M(4, __VA_ARGS__) J M(5, __VA_ARGS__) J M(6, __VA_ARGS__) J M(7, __VA_ARGS__))
 #define SDENSE(e, n, g) SD1(e, n, g, 0, SD1(e, n, g, 1, SD1(e, n, g, 2, SD1(e, n, g, 3, SD1(e, n, g, 4, SD1(e, n, g, 5, SD1(e, n, g, 6, SD1(e, n, g, 7, 0))))))))
-#define SI1(e, n, g, k) (((k) < (n)) && IDX(e, k) == (g))
-#define SIN(e, n, g) (SI1(e, n, g, 0) || SI1(e, n, g, 1) || SI1(e, n, g, 2) || SI1(e, n, g, 3) || SI1(e, n, g, 4) || SI1(e, n, g, 5) || SI1(e, n, g, 6) || SI1(e, n, g, 7))
+#else
+#error "sparse_alg_c.h: CAP must be 4, 6 or 8"
+#endif
+#define SD1(e, n, g, k, rest) ((((k) < (n)) && IDX(e, k) == (g)) ? VAL(e, k) : (rest))
+#define SI1(k, e, n, g) (((k) < (n)) && IDX(e, k) == (g))
+#define SIN(e, n, g) CELLS(||, SI1, e, n, g)
 /* number of stored nonzero VALUES of a sparse vector / of nonzero entries of a dense vector */
-#define NZ1(e, n, k) ((((k) < (n)) && VAL(e, k) != 0) ? 1 : 0)
-#define SNNZ(e, n) (NZ1(e, n, 0) + NZ1(e, n, 1) + NZ1(e, n, 2) + NZ1(e, n, 3) + NZ1(e, n, 4) + NZ1(e, n, 5) + NZ1(e, n, 6) + NZ1(e, n, 7))
-#define DZ1(w, n, k) ((((k) < (n)) && (w)[k] != 0) ? 1 : 0)
-#define DNNZ(w, n) (DZ1(w, n, 0) + DZ1(w, n, 1) + DZ1(w, n, 2) + DZ1(w, n, 3) + DZ1(w, n, 4) + DZ1(w, n, 5) + DZ1(w, n, 6) + DZ1(w, n, 7))
-/* membership of index g in an int index list */
-#define II1(ix, n, g, k) (((k) < (n)) && (ix)[k] == (g))
-#define IIN(ix, n, g) (II1(ix, n, g, 0) || II1(ix, n, g, 1) || II1(ix, n, g, 2) || II1(ix, n, g, 3) || II1(ix, n, g, 4) || II1(ix, n, g, 5) || II1(ix, n, g, 6) || II1(ix, n, g, 7))
-#define IC1(ix, n, g, k) ((((k) < (n)) && (ix)[k] == (g)) ? 1 : 0)
-#define ICOUNT(ix, n, g) (IC1(ix, n, g, 0) + IC1(ix, n, g, 1) + IC1(ix, n, g, 2) + IC1(ix, n, g, 3) + IC1(ix, n, g, 4) + IC1(ix, n, g, 5) + IC1(ix, n, g, 6) + IC1(ix, n, g, 7))
+#define NZ1(k, e, n) ((((k) < (n)) && VAL(e, k) != 0) ? 1 : 0)
+#define SNNZ(e, n) CELLS(+, NZ1, e, n)
+#define DZ1(k, w, n) ((((k) < (n)) && (w)[k] != 0) ? 1 : 0)
+#define DNNZ(w, n) CELLS(+, DZ1, w, n)
+/* membership / multiplicity of index g in an int index list */
+#define II1(k, ix, n, g) (((k) < (n)) && (ix)[k] == (g))
+#define IIN(ix, n, g) CELLS(||, II1, ix, n, g)
+#define IC1(k, ix, n, g) ((((k) < (n)) && (ix)[k] == (g)) ? 1 : 0)
+#define ICOUNT(ix, n, g) CELLS(+, IC1, ix, n, g)
 /* unwound instances allocate constant-size blocks (CAP cells) with a symbolic max() / dim() <= CAP (small SAT encoding) */
 #define SVWF(e, mx, used) (0 <= (mx) && (mx) <= CAP && __CPROVER_is_fresh(e, CAP * sizeof(long long)) && 0 <= (used) && (used) <= (mx))
 #define DVWF(w, dim) (1 <= (dim) && (dim) <= CAP && __CPROVER_is_fresh(w, CAP * sizeof(int)))
